@@ -515,3 +515,114 @@ func harnessLRBody() {
 	}
 	checkSyntaxError(err, toks, bad, lx)
 }
+
+// lrLongShape builds a long sentence of the documented grammar: shape s repeated/nested n times.
+func lrLongShape(s, n int) []string {
+	out := []string{"grammar", "IDENT", ";"}
+	rep := func(unit []string, times int) {
+		for i := 0; i < times; i++ {
+			out = append(out, unit...)
+		}
+	}
+	switch s {
+	case 0: // one rule with n+1 alternatives
+		out = append(out, "IDENT", "=", "STRING")
+		rep([]string{"|", "STRING"}, n)
+		out = append(out, ";")
+	case 1: // one rule with a concatenation of n symbols
+		out = append(out, "IDENT", "=")
+		rep([]string{"TOKEN"}, n)
+		out = append(out, ";")
+	case 2: // groups nested n deep
+		out = append(out, "IDENT", "=")
+		rep([]string{"("}, n)
+		out = append(out, "IDENT")
+		rep([]string{")"}, n)
+		out = append(out, ";")
+	case 3: // n rules
+		rep([]string{"IDENT", "=", "STRING", ";"}, n)
+	case 4: // a directive with n terminal handles
+		out = append(out, "@left")
+		rep([]string{"STRING"}, n)
+		out = append(out, ";")
+	case 5: // all four bracket kinds nested n/4 deep, with a trailing alternative bar at each level
+		out = append(out, "IDENT", "=")
+		rep([]string{"[", "{", "{{", "("}, n/4)
+		out = append(out, "TOKEN")
+		rep([]string{"|", ")", "}}", "}", "]"}, n/4)
+		out = append(out, ";")
+	case 6: // a directive with n rule handles
+		out = append(out, "@right")
+		rep([]string{"<", "IDENT", "=", "IDENT", "STRING", ">"}, n)
+		out = append(out, ";")
+	case 7: // n token definitions without semicolons
+		rep([]string{"TOKEN", "=", "REGEX"}, n)
+	case 8: // alternatives of concatenations inside a group, n times
+		out = append(out, "IDENT", "=", "(")
+		rep([]string{"STRING", "TOKEN", "|"}, n)
+		out = append(out, "IDENT", ")", ";")
+	}
+	return out
+}
+
+const lrLongShapes = 9
+
+// harnessLRLong: long sentences (sizes lrLongNs) of nine shapes - many alternatives, long
+// concatenations, deep nesting, many declarations, many handles - with the kind of one token (near the
+// start, in the middle or at the end) left arbitrary: acceptance, reduction order and error position must
+// agree with the reference parser however long the input is.
+func harnessLRLong() {
+	s := verif.Pick("shape", lrLongShapes)
+	n := lrLongNs[verif.Pick("size", len(lrLongNs))]
+	kinds := lrLongShape(s, n)
+	toks := make([]lexer.Token, len(kinds))
+	for i, kd := range kinds {
+		toks[i] = lexer.Token{Terminal: grammar.Terminal(kd), Lexeme: "t" + vitoa(i), Pos: lexer.Position{Filename: "f", Offset: 10 * i, Line: 1 + i/4, Column: 1 + 7*(i%4)}}
+	}
+	switch verif.Pick("where", 4) {
+	case 1:
+		toks[4].Terminal = grammar.Terminal(verif.Enum("t", lrTermNames...))
+	case 2:
+		toks[len(toks)/2].Terminal = grammar.Terminal(verif.Enum("t", lrTermNames...))
+	case 3:
+		toks[len(toks)-1].Terminal = grammar.Terminal(verif.Enum("t", lrTermNames...))
+	}
+	k := len(toks)
+	lx := &stubLexer{toks: toks, failAt: -1}
+	lx.atEOF(k)
+	p := &Parser{L: lx}
+	var got []int
+	err := p.Parse(
+		func(t *lexer.Token) error {
+			got = append(got, -1)
+			return nil
+		},
+		func(i int) error {
+			got = append(got, i)
+			return nil
+		},
+	)
+	tree, bad := refParse(kindsOf(toks))
+	if tree != nil {
+		verif.Reach("accepted")
+		verif.Assert(err == nil, "a (long) sentence of the documented grammar is rejected")
+		if err != nil {
+			return
+		}
+		var want []int
+		events(tree, &want)
+		same := len(want) == len(got)
+		for i := 0; same && i < len(want); i++ {
+			same = want[i] == got[i] || (want[i] < 0 && got[i] == -1)
+		}
+		verif.Assert(same, "callbacks are not the reverse rightmost derivation the documented precedence prescribes (long input)")
+		verif.Assert(lx.requested == k+1, "the parser must read every token and the end marker exactly once")
+		return
+	}
+	verif.Reach("rejected")
+	verif.Assert(err != nil, "a (long) token sequence that is not a sentence of the documented grammar is accepted")
+	if err == nil {
+		return
+	}
+	checkSyntaxError(err, toks, bad, lx)
+}
